@@ -171,3 +171,308 @@ Proof.
   - intros [ss last]. cbn [hooks_if hooks_if_g h_block rw_if_block rw_if_block_g]. now rewrite rw_if_stmts_agrees.
   - intros e. cbn [hooks_if hooks_if_g h_expr]. destruct e; try reflexivity.
 Qed.
+
+(** * Soundness for a sound oracle *)
+
+(** what [FKeep s'] / [FReplace s'] / [FRemove] must mean for the statement they answer on *)
+Definition filter_ok (d : dialect) (st : stmt) (fr : filter_result) : Prop :=
+  match fr with
+  | FKeep s' | FReplace s' => forall n rho va, refines (exec_stmt d n rho va st) (exec_stmt d n rho va s')
+  | FRemove => forall n rho va, refines (exec_stmt d n rho va st) (ret (rho, SigNone))
+  end.
+
+Section RwStmts.
+Variable d : dialect.
+Variable f : stmt -> filter_result.
+Hypothesis f_ok : forall st, filter_ok d st (f st).
+
+Lemma rw_stmts_refines ss : forall n rho va last,
+  refines (exec_stmts d n rho va ss last) (exec_stmts d n rho va (rw_stmts f ss) last).
+Proof.
+  induction ss as [|st rest IHr]; intros n rho va last; [apply refines_refl|].
+  destruct n as [|n]; [apply refines_fuel|]. cbn [rw_stmts].
+  pose proof (f_ok st) as Hst. destruct (f st) as [s'| |s']; cbn [filter_ok] in Hst.
+  - rewrite !exec_stmts_S_cons. apply refines_bind; [apply Hst|]. intros [rho1 sg1]. cbn [stmts_cont].
+    destruct sg1; try apply refines_refl. apply IHr.
+  - rewrite exec_stmts_S_cons. eapply refines_bind_const; [apply Hst|]. cbn [stmts_cont].
+    eapply refines_trans; [apply IHr|]. apply exec_stmts_refines_le. lia.
+  - rewrite !exec_stmts_S_cons. apply refines_bind; [apply Hst|]. intros [rho1 sg1]. cbn [stmts_cont].
+    destruct sg1; try apply refines_refl. apply IHr.
+Qed.
+
+Lemma rw_stmts_block ss last n rho va :
+  refines (exec_block d n rho va (Block ss last)) (exec_block d n rho va (Block (rw_stmts f ss) last)).
+Proof. destruct n as [|n]; [apply refines_fuel|]. rewrite !exec_block_S. apply rw_stmts_refines. Qed.
+
+Lemma rw_stmts_repeat_go n va last ss : forall rho,
+  refines (repeat_go d n va last ss rho) (repeat_go d n va last (rw_stmts f ss) rho).
+Proof.
+  induction ss as [|st rest IHr]; intros rho; [apply refines_refl|].
+  cbn [rw_stmts]. pose proof (f_ok st) as Hst. destruct (f st) as [s'| |s']; cbn [filter_ok] in Hst.
+  - rewrite !repeat_go_cons. apply refines_bind; [apply Hst|]. intros [rho1 sg1].
+    destruct sg1; try apply refines_refl. apply IHr.
+  - rewrite repeat_go_cons. eapply refines_bind_const; [apply Hst|]. apply IHr.
+  - rewrite !repeat_go_cons. apply refines_bind; [apply Hst|]. intros [rho1 sg1].
+    destruct sg1; try apply refines_refl. apply IHr.
+Qed.
+
+Lemma rw_stmts_repeat ss last c : forall n rho va,
+  refines (exec_repeat d n rho va (Block ss last) c) (exec_repeat d n rho va (Block (rw_stmts f ss) last) c).
+Proof.
+  induction n as [|n IHn]; intros rho va; [apply refines_fuel|]. rewrite !exec_repeat_S.
+  apply refines_bind; [apply rw_stmts_repeat_go|]. intros [rho1 sg1].
+  destruct sg1; try apply refines_refl; apply refines_bind_l; intros cv; destruct (truthy cv);
+    try apply refines_refl; apply IHn.
+Qed.
+
+End RwStmts.
+
+Section IfSound.
+Variable d : dialect.
+Variable tr : expr -> option bool.
+Variable hs : expr -> bool.
+
+(** the oracle answers only on store-independent, store-preserving constants *)
+Definition tr_ok : Prop :=
+  forall c b, tr c = Some b ->
+    hs c = false /\ exists v, truthy v = b /\ forall n rho va, refines (eval1 d n rho va c) (ret v).
+Hypothesis Htr : tr_ok.
+
+Lemma if_retain_g_closed bs repl : if_retain_g tr hs bs false repl = ([], false, repl).
+Proof. induction bs as [|[c b] bs IH]; [reflexivity|]. cbn [if_retain_g negb]. exact IH. Qed.
+
+Lemma sif_retain : forall bs r0 kept kp rp,
+  if_retain_g tr hs bs true r0 = (kept, kp, rp) ->
+  (kp = true -> rp = r0) /\ (kp = false -> exists b, rp = Some b) /\
+  forall n rho va els,
+    refines (sif_go d n rho va els bs) (sif_go d n rho va (if kp then els else rp) kept).
+Proof.
+  induction bs as [|[c b] rest IH]; intros r0 kept kp rp E.
+  - cbn in E. inversion E; subst. split; [reflexivity|]. split; [discriminate|].
+    intros; apply refines_refl.
+  - cbn [if_retain_g negb] in E. destruct (tr c) as [[|]|] eqn:Et.
+    + destruct (Htr _ _ Et) as (Hh & v & Hv & Hc). rewrite Hh in E.
+      rewrite if_retain_g_closed in E. inversion E; subst.
+      split; [discriminate|]. split; [eauto|].
+      intros n rho va els. rewrite sif_go_cons, sif_go_nil.
+      eapply refines_bind_const; [apply Hc|]. rewrite Hv. apply refines_refl.
+    + destruct (Htr _ _ Et) as (Hh & v & Hv & Hc). rewrite Hh in E.
+      destruct (IH _ _ _ _ E) as (H1 & H2 & H3). split; [exact H1|]. split; [exact H2|].
+      intros n rho va els. rewrite sif_go_cons.
+      eapply refines_bind_const; [apply Hc|]. rewrite Hv. apply H3.
+    + destruct (if_retain_g tr hs rest true r0) as [[k kp'] rp'] eqn:E'. inversion E; subst.
+      destruct (IH _ _ _ _ E') as (H1 & H2 & H3). split; [exact H1|]. split; [exact H2|].
+      intros n rho va els. rewrite !sif_go_cons. apply refines_bind_l. intros cv.
+      destruct (truthy cv); [apply refines_refl|apply H3].
+Qed.
+
+Lemma block_is_empty_eq b : block_is_empty b = true -> b = empty_block.
+Proof. destruct b as [[|x ss] [l|]]; try discriminate. reflexivity. Qed.
+
+Lemma else1_refines n rho va els bs :
+  refines (sif_go d n rho va els bs) (sif_go d n rho va (else1 els) bs).
+Proof.
+  destruct els as [b|]; [|apply refines_refl]. cbn [else1].
+  destruct (block_is_empty b) eqn:Eb; [|apply refines_refl].
+  apply block_is_empty_eq in Eb. subst b. intros s Hf. apply sif_go_empty_else; [reflexivity|exact Hf].
+Qed.
+
+Lemma empty_block_refines n rho va : refines (exec_block d n rho va empty_block) (ret SigNone).
+Proof.
+  destruct n as [|[|n]]; try (intros s Hf; exfalso; apply Hf; reflexivity). intros s _. reflexivity.
+Qed.
+
+Lemma if_to_none bs els : (forall n rho va, refines (sif_go d n rho va els bs) (ret SigNone)) ->
+  forall n rho va, refines (exec_stmt d n rho va (SIf bs els)) (ret (rho, SigNone)).
+Proof.
+  intros H n rho va. destruct n as [|n]; [apply refines_fuel|]. rewrite exec_stmt_S_if.
+  eapply refines_bind_const; [apply H|apply refines_refl].
+Qed.
+
+Lemma if_to_do bs els blk : (forall n rho va, refines (sif_go d n rho va els bs) (exec_block d n rho va blk)) ->
+  forall n rho va, refines (exec_stmt d n rho va (SIf bs els)) (exec_stmt d n rho va (SDo blk)).
+Proof.
+  intros H n rho va. destruct n as [|n]; [apply refines_fuel|]. rewrite exec_stmt_S_if, exec_stmt_S_do.
+  apply refines_bind; [apply H|intros; apply refines_refl].
+Qed.
+
+Lemma if_to_if bs els bs' els' : (forall n rho va, refines (sif_go d n rho va els bs) (sif_go d n rho va els' bs')) ->
+  forall n rho va, refines (exec_stmt d n rho va (SIf bs els)) (exec_stmt d n rho va (SIf bs' els')).
+Proof.
+  intros H n rho va. destruct n as [|n]; [apply refines_fuel|]. rewrite !exec_stmt_S_if.
+  apply refines_bind; [apply H|intros; apply refines_refl].
+Qed.
+
+Lemma do_or_remove bs els blk :
+  (forall n rho va, refines (sif_go d n rho va els bs) (exec_block d n rho va blk)) ->
+  filter_ok d (SIf bs els) (if block_is_empty blk then FRemove else FReplace (SDo blk)).
+Proof.
+  intros H. destruct (block_is_empty blk) eqn:Eb; cbn [filter_ok].
+  - apply block_is_empty_eq in Eb. subst blk. apply if_to_none. intros n rho va.
+    eapply refines_trans; [apply H|apply empty_block_refines].
+  - now apply if_to_do.
+Qed.
+
+Lemma simplify_if_statement_ok bs els : filter_ok d (SIf bs els) (simplify_if_statement_g tr hs bs els).
+Proof.
+  unfold simplify_if_statement_g.
+  destruct (if_retain_g tr hs bs true None) as [[kept kp] rp] eqn:E.
+  destruct (sif_retain _ _ _ _ _ E) as (H1 & H2 & H3).
+  assert (Hgo : forall n rho va,
+            refines (sif_go d n rho va els bs) (sif_go d n rho va (if kp then else1 els else rp) kept)).
+  { intros n rho va. eapply refines_trans; [apply else1_refines|apply H3]. }
+  destruct kept as [|x kept].
+  - destruct rp as [blk|].
+    + destruct kp; [specialize (H1 eq_refl); discriminate H1|].
+      apply do_or_remove. intros n rho va. specialize (Hgo n rho va). rewrite sif_go_nil in Hgo. exact Hgo.
+    + destruct kp; [|destruct (H2 eq_refl) as [b Hb]; discriminate Hb].
+      destruct (else1 els) as [eb|] eqn:Ee.
+      * apply do_or_remove. intros n rho va. specialize (Hgo n rho va). rewrite sif_go_nil in Hgo. exact Hgo.
+      * cbn [filter_ok]. apply if_to_none. intros n rho va. specialize (Hgo n rho va).
+        rewrite sif_go_nil in Hgo. exact Hgo.
+  - cbn [filter_ok]. now apply if_to_if.
+Qed.
+
+Lemma if_filter_ok st : filter_ok d st (if_filter_g tr hs st).
+Proof.
+  destruct st; try (cbn [if_filter_g filter_ok]; intros; apply refines_refl).
+  apply simplify_if_statement_ok.
+Qed.
+
+(** ** expression form *)
+
+Lemma ifexp_retain_g_closed bs repl : ifexp_retain_g tr hs bs false repl = ([], false, repl).
+Proof. induction bs as [|[c r] bs IH]; [reflexivity|]. cbn [ifexp_retain_g negb]. exact IH. Qed.
+
+Definition repl_expr (rp : option expr) : expr := match rp with Some x => x | None => ENil end.
+
+Lemma eif_retain : forall bs r0 kept kp rp,
+  ifexp_retain_g tr hs bs true r0 = (kept, kp, rp) ->
+  forall n rho va els,
+    refines (if_go d n rho va els bs) (if_go d n rho va (if kp then els else repl_expr rp) kept).
+Proof.
+  induction bs as [|[c r] rest IH]; intros r0 kept kp rp E.
+  - cbn in E. inversion E; subst. intros; apply refines_refl.
+  - cbn [ifexp_retain_g negb] in E. destruct (tr c) as [[|]|] eqn:Et.
+    + destruct (Htr _ _ Et) as (Hh & v & Hv & Hc). rewrite Hh in E.
+      rewrite ifexp_retain_g_closed in E. inversion E; subst.
+      intros n rho va els. rewrite if_go_cons, if_go_nil.
+      eapply refines_bind_const; [apply Hc|]. rewrite Hv. apply refines_refl.
+    + destruct (Htr _ _ Et) as (Hh & v & Hv & Hc). rewrite Hh in E.
+      intros n rho va els. rewrite if_go_cons.
+      eapply refines_bind_const; [apply Hc|]. rewrite Hv. now apply (IH _ _ _ _ E).
+    + destruct (ifexp_retain_g tr hs rest true r0) as [[k kp'] rp'] eqn:E'. inversion E; subst.
+      intros n rho va els. rewrite !if_go_cons. apply refines_bind_l. intros cv.
+      destruct (truthy cv); [apply refines_refl|now apply (IH _ _ _ _ E')].
+Qed.
+
+(** [r] in a single-value position and [r], parenthesised when it may yield several values *)
+Lemma paren_refines n rho va r :
+  refines (v <- eval1 d n rho va r ;; ret [v]) (eval d (S n) rho va (paren_if_multi r)).
+Proof.
+  unfold paren_if_multi. destruct (can_return_multiple_values r) eqn:Ec.
+  - rewrite eval_S_paren. apply refines_refl.
+  - destruct n as [|n]; [apply refines_fuel|]. rewrite eval1_S. intros s Hf. unfold bind in *.
+    pose proof (eval_refines_le d n (S (S n)) rho va r ltac:(lia) s) as Hm.
+    destruct (eval d n rho va r s) as [vs s1|e s1| |w] eqn:E; try (exfalso; apply Hf; reflexivity);
+      rewrite Hm by discriminate; try reflexivity.
+    pose proof (single_sound _ _ _ _ _ _ _ _ Ec E) as Hl.
+    destruct vs as [|w [|w2 vs]]; try discriminate Hl. reflexivity.
+Qed.
+
+Lemma simplify_if_ok : forall rest c r els n rho va,
+  refines (eval d n rho va (EIf (EBranch c r :: rest) els)) (eval d n rho va (simplify_if_g tr hs c r rest els)).
+Proof.
+  induction rest as [|[c2 r2] rest IH]; intros c r els n rho va;
+    (destruct n as [|n]; [apply refines_fuel|]); cbn [simplify_if_g];
+    destruct (tr c) as [[|]|] eqn:Et;
+    try (destruct (Htr _ _ Et) as (Hh & v & Hv & Hc); rewrite Hh).
+  - rewrite eval_S_if, if_go_cons. eapply refines_bind_const; [apply Hc|]. rewrite Hv. apply paren_refines.
+  - rewrite eval_S_if, if_go_cons. eapply refines_bind_const; [apply Hc|]. rewrite Hv. rewrite if_go_nil.
+    apply paren_refines.
+  - cbn [ifexp_retain_g]. apply refines_refl.
+  - rewrite eval_S_if, if_go_cons. eapply refines_bind_const; [apply Hc|]. rewrite Hv. apply paren_refines.
+  - rewrite eval_S_if, if_go_cons. eapply refines_bind_const; [apply Hc|]. rewrite Hv.
+    rewrite <- eval_S_if. apply IH.
+  - destruct (ifexp_retain_g tr hs (EBranch c2 r2 :: rest) true None) as [[k kp] rp] eqn:E.
+    rewrite !eval_S_if, !if_go_cons. apply refines_bind_l. intros cv.
+    destruct (truthy cv); [apply refines_refl|]. now apply (eif_retain _ _ _ _ _ E).
+Qed.
+
+Lemma rw_if_expr_ok e n rho va : refines (eval d n rho va e) (eval d n rho va (rw_if_expr_g tr hs e)).
+Proof.
+  destruct e; try apply refines_refl. destruct branches as [|[c r] rest]; [apply refines_refl|].
+  cbn [rw_if_expr_g]. apply simplify_if_ok.
+Qed.
+
+(** ** the rule *)
+
+Lemma hooks_if_g_ok :
+  hooks_ok (fun e e1 => e1 = rw_if_expr_g tr hs e) Rnone Rnone Rnone (fun b b1 => b1 = rw_if_block_g tr hs b)
+           (hooks_if_g tr hs).
+Proof.
+  constructor; cbn [hooks_if_g h_expr h_prefix h_var h_call h_table h_stmt h_block].
+  - intros e e' Hg. eapply cr_e_rw; [reflexivity|].
+    replace (rw_if_expr_g tr hs e) with (call_hook (hooks_if_g tr hs) (rw_if_expr_g tr hs e)); [exact Hg|].
+    destruct (rw_if_expr_g tr hs e); reflexivity.
+  - intros e e' Hg. apply cr_e_same. destruct e; exact Hg.
+  - apply id_ok_v.
+  - apply id_ok_e.
+  - apply id_ok_t.
+  - apply id_ok_s.
+  - intros b b' Hg. eapply cr_b_rw; [reflexivity|exact Hg].
+Qed.
+
+Theorem lifting_if_g : forall n orc b out,
+  run_chunk d n orc b = out -> out <> OutFuel ->
+  run_chunk d n orc (apply_hooks (hooks_if_g tr hs) b) = out.
+Proof.
+  intros n orc b out.
+  apply (lifting_apply_hooks (fun e e1 => e1 = rw_if_expr_g tr hs e) Rnone Rnone Rnone
+                             (fun b b1 => b1 = rw_if_block_g tr hs b) d); try (intros ? ? []; fail).
+  - intros e e1 ->. intros; apply rw_if_expr_ok.
+  - intros b0 b1 ->. intros k rho va. destruct b0 as [ss last]. apply rw_stmts_block. apply if_filter_ok.
+  - intros b0 b1 ->. intros k rho va c. destruct b0 as [ss last]. apply rw_stmts_repeat. apply if_filter_ok.
+  - apply hooks_if_g_ok.
+Qed.
+
+End IfSound.
+
+(** * Literal conditions *)
+
+Definition lit_truthy (c : expr) : option bool :=
+  match c with
+  | ETrue | ENumber _ | EString _ => Some true
+  | EFalse | ENil => Some false
+  | _ => None
+  end.
+
+(** the literal oracle answers as the rule's own *)
+Lemma lit_truthy_static c b : lit_truthy c = Some b -> tr_static c = Some b /\ hse c = false.
+Proof. destruct c; cbn; intros H; inversion H; subst; split; reflexivity. Qed.
+
+Lemma lit_truthy_ok d : tr_ok d lit_truthy hse.
+Proof.
+  intros c b H. split; [exact (proj2 (lit_truthy_static c b H))|].
+  destruct c; try discriminate H; cbn in H; inversion H; subst.
+  - exists VNil. split; [reflexivity|]. intros [|[|n]] rho va s Hf; try (exfalso; apply Hf; reflexivity); reflexivity.
+  - exists (VBool true). split; [reflexivity|]. intros [|[|n]] rho va s Hf; try (exfalso; apply Hf; reflexivity); reflexivity.
+  - exists (VBool false). split; [reflexivity|]. intros [|[|n]] rho va s Hf; try (exfalso; apply Hf; reflexivity); reflexivity.
+  - exists (VNum (number_value n)). split; [reflexivity|]. intros [|[|k]] rho va s Hf; try (exfalso; apply Hf; reflexivity); reflexivity.
+  - exists (VStr s). split; [reflexivity|]. intros [|[|k]] rho va s0 Hf; try (exfalso; apply Hf; reflexivity); reflexivity.
+Qed.
+
+(** the rule with the static evaluator answering only on literal conditions *)
+Definition rule_remove_unused_if_branch_literal : block -> block := apply_hooks (hooks_if_g lit_truthy hse).
+
+Theorem lifting_remove_unused_if_branch_literal : forall d n orc b out,
+  run_chunk d n orc b = out -> out <> OutFuel ->
+  run_chunk d n orc (rule_remove_unused_if_branch_literal b) = out.
+Proof. intros d. apply (lifting_if_g d lit_truthy hse). apply lit_truthy_ok. Qed.
+
+(** the rule itself, on programs in which every condition it decides is a literal *)
+Theorem lifting_remove_unused_if_branch_partial : forall d n orc b out,
+  rule_remove_unused_if_branch b = rule_remove_unused_if_branch_literal b ->
+  run_chunk d n orc b = out -> out <> OutFuel ->
+  run_chunk d n orc (rule_remove_unused_if_branch b) = out.
+Proof. intros d n orc b out ->. apply lifting_remove_unused_if_branch_literal. Qed.
